@@ -111,7 +111,8 @@ func (e *Engine) preamble(body string) string {
 	b.WriteString(sortDecls(roots))
 	for _, s := range sortClosure(roots) {
 		if s.Kind == KSlice {
-			fmt.Fprintf(&b, "(assert (forall ((s %s)) (! (>= (%s_len s) 0) :pattern ((%s_len s)))))\n", s.Name, s.Name, s.Name)
+			// lengths are read through max(0, raw) so that every slice value has a non-negative length
+			fmt.Fprintf(&b, "(define-fun %s_n ((s %s)) Int (ite (>= (%s_len s) 0) (%s_len s) 0))\n", s.Name, s.Name, s.Name, s.Name)
 		}
 	}
 	var ax strings.Builder
@@ -268,6 +269,27 @@ func (x *Exec) queries(fname string) []*Obligation {
 		}
 	}
 	return out
+}
+
+// endQuery: everything assumed anywhere in the function (definitions, callee
+// postconditions, invariants, discharged obligations) must be jointly satisfiable;
+// an unsat answer means the proofs of this function are vacuous.
+func (x *Exec) endQuery() string {
+	var body strings.Builder
+	for _, ev := range x.events {
+		switch ev.Kind {
+		case EvDecl:
+			body.WriteString(ev.Text + "\n")
+		case EvAssume:
+			body.WriteString("(assert " + ev.T.S + ")\n")
+		case EvAssert:
+			if !ev.NoAssume && ev.T.S != "false" && !strings.HasSuffix(ev.T.S, " false)") {
+				body.WriteString("(assert " + ev.T.S + ")\n")
+			}
+		}
+	}
+	q := body.String() + "(check-sat)\n"
+	return x.eng.preamble(q) + q
 }
 
 // vacuityQuery: the assumptions up to the end of the root's requires must be satisfiable.
